@@ -32,6 +32,9 @@ type nodeDesc struct {
 }
 
 func describeTree(t *chainlab.Tree) []nodeDesc {
+	if t == nil {
+		return nil
+	}
 	out := make([]nodeDesc, 0, len(t.Nodes))
 	for _, n := range t.Nodes {
 		p := -1
@@ -345,6 +348,8 @@ func runC01(r *mon.Run, replay string) {
 	if st, ok := replayStream(replay); ok {
 		// (VERIF_SEED, stream) determines a case completely
 		switch {
+		case st >= 930000:
+			runOakBoundaryScenario(r, st)
 		case st >= 920000:
 			runGhostScenario(r, st)
 		case st >= 910000:
@@ -409,6 +414,8 @@ func runC01(r *mon.Run, replay string) {
 	parallel(r.Pick(40, 600), func(i int) { runValidatedScenario(r, uint64(900000+i)) })
 	parallel(r.Pick(150, 2500), func(i int) { runNearTieScenario(r, uint64(910000+i)) })
 	parallel(r.Pick(80, 1200), func(i int) { runGhostScenario(r, uint64(920000+i)) })
+	parallel(r.Pick(3, 16), func(i int) { runOakBoundaryScenario(r, uint64(930000+i)) })
+	r.Floor("oak_boundary_histories", 2)
 	r.Extra("invalid_fork_scenarios_enumerated", len(scs))
 	for _, reg := range regimes {
 		r.Floor("rollbacks_observed:"+reg, 1)
